@@ -29,7 +29,174 @@ def refLinearNaturalBy (eq : Pos P → Pos P → Bool) (pts : List (PathControlP
 
 def refLinearNatural [Scalar P] (pts : List (PathControlPoint P)) : List (Pos P) :=
   refLinearNaturalBy Pos.eq pts
+theorem refEmit_one (eq : Pos P → Pos P → Bool) (out : List (Pos P)) (v : Pos P) :
+    refEmit eq out [v] = out ++ [v] := rfl
+
+theorem refEmit_many (eq : Pos P → Pos P → Bool) (out seg : List (Pos P)) (h : ∀ v, seg ≠ [v]) :
+    refEmit eq out seg = out ++
+      (if (match out.getLast?, seg.head? with
+          | some l, some f => eq l f
+          | _, _ => false) then seg.drop 1 else seg) := by
+  unfold refEmit
+  split
+  · rename_i v; exact absurd rfl (h v)
+  · rfl
+
 end Ref
+
+/-! ## corollaries about the reference itself -/
+
+section RefFacts
+variable {P : Type}
+
+/-- loop invariant of the reference once something was emitted: the running segment starts with the last emitted vertex,
+and that vertex equals itself. -/
+def Joint (eq : Pos P → Pos P → Bool) (out seg : List (Pos P)) : Prop :=
+  out = [] ∨ ∃ f t, seg = f :: t ∧ out.getLast? = some f ∧ eq f f = true
+
+theorem refEmit_joint (eq : Pos P → Pos P → Bool) (out seg : List (Pos P)) (v : Pos P) (hj : Joint eq out seg) :
+    refEmit eq out (seg ++ [v]) = out ++ (if out = [] then seg else seg.drop 1) ++ [v] := by
+  rcases hj with rfl | ⟨f, t, rfl, hlast, hrefl⟩
+  · cases seg with
+    | nil => rfl
+    | cons a t =>
+      rw [refEmit_many _ _ _ (by intro w hw; cases t <;> simp at hw)]
+      simp
+  · have hne : out ≠ [] := by intro h; rw [h] at hlast; cases hlast
+    rw [refEmit_many _ _ _ (by intro w hw; cases t <;> simp at hw), hlast]
+    simp [hrefl, hne]
+
+theorem refGo_eq_positions (eq : Pos P → Pos P → Bool) :
+    ∀ (rest : List (PathControlPoint P)) (p : PathControlPoint P) (out seg : List (Pos P)),
+      Joint eq out seg →
+      (∀ cp ∈ (p :: rest).dropLast, cp.pathType ≠ none → eq cp.pos cp.pos = true) →
+      refGo eq out seg (p :: rest) =
+        out ++ (if out = [] then seg else seg.drop 1) ++ (p :: rest).map (·.pos) := by
+  intro rest
+  induction rest with
+  | nil =>
+    intro p out seg hj _
+    rw [refGo]
+    simp only [List.isEmpty_nil, Bool.not_true, Bool.and_false, Bool.false_eq_true, if_false, refGo]
+    exact refEmit_joint eq out seg p.pos hj
+  | cons q r ih =>
+    intro p out seg hj hrefl
+    have hrefl' : ∀ cp ∈ (q :: r).dropLast, cp.pathType ≠ none → eq cp.pos cp.pos = true := by
+      intro cp hcp; exact hrefl cp (by rw [List.dropLast_cons_cons]; exact List.mem_cons_of_mem _ hcp)
+    rw [refGo]
+    cases hp : p.pathType with
+    | none =>
+      simp only [Option.isNone_none, List.isEmpty_cons, Bool.not_false, Bool.and_self, if_true]
+      have hj' : Joint eq out (seg ++ [p.pos]) := by
+        rcases hj with h | ⟨f, t, rfl, h1, h2⟩
+        · exact Or.inl h
+        · exact Or.inr ⟨f, t ++ [p.pos], rfl, h1, h2⟩
+      rw [ih q out (seg ++ [p.pos]) hj' hrefl']
+      rcases hj with rfl | ⟨f, t, rfl, h1, _⟩
+      · simp
+      · have hne : out ≠ [] := by intro h; rw [h] at h1; cases h1
+        simp [hne]
+    | some ty =>
+      simp only [Option.isNone_some, Bool.false_and, Bool.false_eq_true, if_false]
+      have hpp : eq p.pos p.pos = true :=
+        hrefl p (by rw [List.dropLast_cons_cons]; exact List.mem_cons_self) (by rw [hp]; exact Option.some_ne_none _)
+      rw [refEmit_joint eq out seg p.pos hj]
+      have hj' : Joint eq (out ++ (if out = [] then seg else seg.drop 1) ++ [p.pos]) [p.pos] :=
+        Or.inr ⟨p.pos, [], rfl, by simp, hpp⟩
+      rw [ih q _ [p.pos] hj' hrefl']
+      simp
+
+/-- **`ref_eq_positions`**: when every control point that carries a path type and is not the last one has a position that
+equals itself (no NaN coordinate), the reference path is simply the list of ALL control-point positions: each joint is
+removed exactly once. -/
+theorem ref_eq_positions (eq : Pos P → Pos P → Bool) (pts : List (PathControlPoint P))
+    (hrefl : ∀ cp ∈ pts.dropLast, cp.pathType ≠ none → eq cp.pos cp.pos = true) :
+    refLinearNaturalBy eq pts = pts.map (·.pos) := by
+  cases pts with
+  | nil => rfl
+  | cons p rest =>
+    unfold refLinearNaturalBy
+    rw [refGo_eq_positions eq rest p [] [] (Or.inl rfl) hrefl]
+    simp
+
+/-- **`ref_single_segment`**: one segment (only the first control point may carry a path type): the path is the list of
+positions. When the first point is typed (and is not the only one) its position must equal itself — otherwise it is emitted
+twice (`ref_single_segment_nan`). -/
+theorem ref_single_segment (eq : Pos P → Pos P → Bool) (p0 : PathControlPoint P) (rest : List (PathControlPoint P))
+    (hrest : ∀ cp ∈ rest, cp.pathType = none)
+    (hrefl : p0.pathType ≠ none → rest ≠ [] → eq p0.pos p0.pos = true) :
+    refLinearNaturalBy eq (p0 :: rest) = (p0 :: rest).map (·.pos) := by
+  apply ref_eq_positions
+  intro cp hcp hty
+  cases rest with
+  | nil => simp at hcp
+  | cons q r =>
+    rcases List.mem_cons.mp (List.mem_of_mem_dropLast hcp) with rfl | h
+    · exact hrefl hty (by simp)
+    · exact absurd (hrest cp h) hty
+
+theorem refGo_untyped (eq : Pos P → Pos P → Bool) :
+    ∀ (rest : List (PathControlPoint P)) (q : PathControlPoint P) (out seg : List (Pos P)),
+      (∀ cp ∈ q :: rest, cp.pathType = none) →
+      refGo eq out seg (q :: rest) = refEmit eq out (seg ++ (q :: rest).map (·.pos)) := by
+  intro rest
+  induction rest with
+  | nil => intro q out seg _; simp [refGo]
+  | cons r rs ih =>
+    intro q out seg h
+    rw [refGo, h q List.mem_cons_self]
+    simp only [Option.isNone_none, List.isEmpty_cons, Bool.not_false, Bool.and_self, if_true]
+    rw [ih r out _ (fun cp hcp => h cp (List.mem_cons_of_mem _ hcp))]
+    simp
+
+/-- the other half: a typed first point whose position does NOT equal itself (a NaN coordinate) is emitted twice. -/
+theorem ref_single_segment_nan (eq : Pos P → Pos P → Bool) (p0 q : PathControlPoint P) (rest : List (PathControlPoint P))
+    (hrest : ∀ cp ∈ q :: rest, cp.pathType = none) (hty : p0.pathType ≠ none) (hnan : eq p0.pos p0.pos = false) :
+    refLinearNaturalBy eq (p0 :: q :: rest) = p0.pos :: (p0 :: q :: rest).map (·.pos) := by
+  unfold refLinearNaturalBy
+  rw [refGo]
+  cases hp : p0.pathType with
+  | none => exact absurd hp hty
+  | some ty =>
+    simp only [Option.isNone_some, Bool.false_and, Bool.false_eq_true, if_false, List.nil_append]
+    rw [refGo_untyped eq rest q _ _ hrest, refEmit_one, refEmit_many _ _ _ (by intro w hw; simp at hw)]
+    simp [hnan]
+
+theorem refGo_last_type_irrelevant (eq : Pos P → Pos P → Bool) (p : Pos P) (o o' : Option PathType) :
+    ∀ (pts : List (PathControlPoint P)) (out seg : List (Pos P)),
+      refGo eq out seg (pts ++ [⟨p, o⟩]) = refGo eq out seg (pts ++ [⟨p, o'⟩]) := by
+  intro pts
+  induction pts with
+  | nil => intro out seg; simp [refGo]
+  | cons q r ih =>
+    intro out seg
+    simp only [List.cons_append]
+    rw [refGo, refGo]
+    have he : ∀ x : PathControlPoint P, (r ++ [x]).isEmpty = false := by intro x; cases r <;> rfl
+    simp only [he, Bool.not_false, Bool.and_true]
+    split
+    · exact ih _ _
+    · exact ih _ _
+
+theorem ref_last_type_irrelevant (eq : Pos P → Pos P → Bool) (pts : List (PathControlPoint P)) (p : Pos P)
+    (o o' : Option PathType) :
+    refLinearNaturalBy eq (pts ++ [⟨p, o⟩]) = refLinearNaturalBy eq (pts ++ [⟨p, o'⟩]) :=
+  refGo_last_type_irrelevant eq p o o' pts [] []
+
+/-- **`ref_typed_last_no_extra`** (seeded defect C16-o): the path type of the LAST control point is never looked at — in
+particular a path type on the last control point adds no vertex. Unconditional (also for `pts = []`). -/
+theorem ref_typed_last_no_extra (eq : Pos P → Pos P → Bool) (pts : List (PathControlPoint P)) (p : Pos P)
+    (t : PathType) :
+    refLinearNaturalBy eq (pts ++ [⟨p, some t⟩]) = refLinearNaturalBy eq (pts ++ [⟨p, none⟩]) :=
+  ref_last_type_irrelevant eq pts p _ _
+
+/-- **`ref_length_le`** (in fact equality) under the no-NaN hypothesis of `ref_eq_positions`. -/
+theorem ref_length_le (eq : Pos P → Pos P → Bool) (pts : List (PathControlPoint P))
+    (hrefl : ∀ cp ∈ pts.dropLast, cp.pathType ≠ none → eq cp.pos cp.pos = true) :
+    (refLinearNaturalBy eq pts).length ≤ pts.length := by
+  rw [ref_eq_positions eq pts hrefl, List.length_map]
+
+end RefFacts
 
 section Generic
 variable {P F : Type} [Scalar P] [Scalar F] [Cvt P F] [Trig F] [Trig P]
@@ -58,18 +225,6 @@ theorem seg_succ {α : Type} (verts : List α) (s k : Nat) (v : α) (hs : s ≤ 
   rw [this, List.take_add_one, List.getElem?_drop, show s + (k - s) = k by omega, hv]
   rfl
 
-theorem refEmit_one (eq : Pos P → Pos P → Bool) (out : List (Pos P)) (v : Pos P) :
-    refEmit eq out [v] = out ++ [v] := rfl
-
-theorem refEmit_many (eq : Pos P → Pos P → Bool) (out seg : List (Pos P)) (h : ∀ v, seg ≠ [v]) :
-    refEmit eq out seg = out ++
-      (if (match out.getLast?, seg.head? with
-          | some l, some f => eq l f
-          | _, _ => false) then seg.drop 1 else seg) := by
-  unfold refEmit
-  split
-  · rename_i v; exact absurd rfl (h v)
-  · rfl
 
 theorem segBody_ref (fuel : Nat) (mode : GameMode) (points : List (PathControlPoint P)) (hl : AllLinear points)
     (pre rest : List (PathControlPoint P)) (p : PathControlPoint P) (st st1 : SegState P F)
